@@ -262,6 +262,18 @@ def nonSepCMYK (k : KSel) (f : RGB → RGB → RGB) (Cb Cs : CMYK) : CMYK :=
   let o := rgb2cmy (f (cmyk2rgb Cb) (cmyk2rgb Cs)) K
   ⟨o.r, o.g, o.b, K⟩
 
+/-- the decorator argument as the source spells it -/
+def KSel.name : KSel → String
+  | .s => "s" | .b => "b"
+
+/-- the `k` each non-separable function of blend.py is wrapped with, function by function
+(`@non_separable()` is the default `"s"`; `luminosity` passes `"s"` explicitly). Regenerated from the
+decorators on every run and tied by `Props.C12.non_separable_k_per_function`. -/
+def kSelOf : String → Option KSel
+  | "hue" => some .s | "saturation" => some .s | "color" => some .s
+  | "luminosity" => some .s | "darker_color" => some .s | "lighter_color" => some .s
+  | _ => none
+
 def hueCMYK := nonSepCMYK .s hue
 def saturationCMYK := nonSepCMYK .s saturation
 def colorCMYK := nonSepCMYK .s color
@@ -358,6 +370,13 @@ def nonSeparable : String → Option (RGB → RGB → RGB)
   | "luminosity" => some luminosity | "darker_color" => some darkerColor
   | "lighter_color" => some lighterColor
   | _ => none
+
+/-- what `BLEND_FUNC` returns for a non-separable mode, on 4-channel input: the function wrapped
+with its own `k` -/
+def nonSeparableCMYK (fn : String) : Option (CMYK → CMYK → CMYK) :=
+  match kSelOf fn, nonSeparable fn with
+  | some k, some f => some (nonSepCMYK k f)
+  | _, _ => none
 
 /-- denominators evaluated, by function name (empty for the division-free modes) -/
 def separableDens : String → Rat → Rat → List Rat
